@@ -74,6 +74,14 @@ def default_token(pname):
   return 'd_' + pname
 
 
+NUMERIC_DEFAULTS = {'i': 1, 'b': True, 'x': 1.0}   # equal, of three types
+
+
+def default_value(p):
+  """The default OBJECT of param p = [name, kind, dflt, ...] (dflt != None)."""
+  return NUMERIC_DEFAULTS[p[2]] if p[2] in NUMERIC_DEFAULTS else default_token(p[0])
+
+
 def sig_source(params, first=None):
   """Python parameter-list source for a spec's params."""
   out = [] if first is None else [first]
@@ -88,8 +96,8 @@ def sig_source(params, first=None):
     if len(p) > 3 and p[3]:
       # annotation tags: fiddle attaches them when the config is created
       name += ': typing.Annotated[object, ' + ', '.join(p[3]) + ']'
-      return name if p[2] is None else f'{name} = {default_token(p[0])!r}'
-    return name if p[2] is None else f'{name}={default_token(p[0])!r}'
+      return name if p[2] is None else f'{name} = {default_value(p)!r}'
+    return name if p[2] is None else f'{name}={default_value(p)!r}'
 
   out += [one(p) for p in po]
   if po:
@@ -153,11 +161,11 @@ def stub_source(spec):
   if kind == 'data':
     lines = ['@dataclasses.dataclass(eq=False)', f'class {name}(StubObj):']
     for p in params:
-      pname, pkind, dflt = p
+      pname, pkind, dflt = p[:3]
       assert pkind in ('pk', 'ko'), 'dataclass stubs: pk/ko params only'
       opts = []
-      if dflt == 'v':
-        opts.append(f'default={default_token(pname)!r}')
+      if dflt == 'v' or dflt in NUMERIC_DEFAULTS:
+        opts.append(f'default={default_value(p)!r}')
       elif dflt == 'f':
         opts.append('default_factory=list')
       if pkind == 'ko':
@@ -247,6 +255,11 @@ def gen_params(rng, *, allow_po=True, allow_va=True, allow_vk=True,
     params.append([f'k{i}', 'ko', d])
   if vk:
     params.append(['kw', 'vk', None])
+  if rng.random() < 0.2:
+    # defaults that are equal across types (1 / True / 1.0)
+    for p in params:
+      if p[2] == 'v' and rng.random() < 0.7:
+        p[2] = rng.choice(sorted(NUMERIC_DEFAULTS))
   if rng.random() < 0.25:
     # parameter names that internal helpers of a library like to use for their
     # own parameters (a keyword forwarded through such a helper collides)
@@ -285,6 +298,31 @@ def gen_spec(rng, name, kinds=KINDS):
       pre['pos'] = ['pre_' + pos[0][0]]
     spec['pre'] = pre
   return spec
+
+
+def twin_spec(spec, name):
+  """A DIFFERENT callable whose inspect.Signature compares equal to spec's:
+  numeric defaults replaced by equal values of another type, keyword-only
+  parameters declared in reverse order.  None if it would not differ."""
+  import copy as _copy
+  rot = {'i': 'b', 'b': 'x', 'x': 'i'}
+  params = _copy.deepcopy(spec['params'])
+  changed = False
+  for p in params:
+    if p[2] in rot:
+      p[2] = rot[p[2]]
+      changed = True
+  ko = [i for i, p in enumerate(params) if p[1] == 'ko']
+  if len(ko) >= 2 and not (spec['kind'] == 'data'):
+    # a reordering is only legal where defaults do not constrain the order (ko)
+    vals = [params[i] for i in reversed(ko)]
+    for i, v in zip(ko, vals):
+      params[i] = v
+    changed = True
+  if not changed:
+    return None
+  kind = spec['kind'] if spec['kind'] in ('func', 'cls', 'data', 'cmeth') else 'func'
+  return {'name': name, 'kind': kind, 'params': params}
 
 
 class SigView:
